@@ -224,7 +224,12 @@ def run(ck):
         ok = len(ac) == 1 and ("field", "energy") in g.origins(ac[0][1]["args"][1])
         ck.ob("DEFUSE", g.path, "charges-accumulated-energy", ok, "account_energy(self.energy)", g.loc())
         okg, d = rules.guarded_site(g, ac[0][0], [("field", "energy")], [("lit", 0)], "Le") if ac else (False, "")
-        ck.ob("CMP", g.path, "skip-only-zero-charge", okg or any(x[1] in ("Le", "Eq") for x in []) or okg, d or "the charge is skipped only when the accumulated energy is 0", g.loc())
+        if not okg and ac:
+            # energy is unsigned: `energy != 0` says the same as `energy > 0`
+            cds = conditions_at(g, ac[0][0])
+            if any((k2 == "cmp:Ne" and v is True or k2 == "cmp:Eq" and v is False) and "energy" in nn and "lit0" in nn for (k2, nn, v) in cds):
+                okg, d = True, "the charge is reached exactly when energy != 0 (unsigned: the same as > 0)"
+        ck.ob("CMP", g.path, "skip-only-zero-charge", okg, d or "the charge is skipped only when the accumulated energy is 0", g.loc())
         # must-pass-through: every accepting return is reached either through the charge or through the edge taken when the
         # accumulated energy is not positive (no other way around the charge, e.g. "nothing pending")
         zero_edges = set()
